@@ -281,6 +281,9 @@ impl Machine {
                     self.machine_st.trail.truncate(tr);
                     self.machine_st.hb = h;
                     self.machine_st.stack.truncate(stub_b);
+                    // the call is over and nothing can backtrack into it:
+                    // release the heap cells it used.
+                    self.machine_st.heap.truncate(h);
                 }
 
                 return exit_code;
